@@ -381,9 +381,9 @@ func runCase(l *list, mask uint64, fullTamper bool, r *result) {
 				continue
 			}
 			if !fullTamper && ci >= nFixed {
-				// larger lists: of the other proof hashes only the neighbours and the two ends
+				// larger lists: of the other proof hashes only the two neighbours
 				j := ci - nFixed
-				if j != i-1 && j != i+1 && j != 0 && j != len(hashes)-1 {
+				if j != i-1 && j != i+1 {
 					continue
 				}
 			}
@@ -664,7 +664,7 @@ func main() {
 	run.Set("structured_list_sizes", structured)
 	run.Set("structured_subsets", structCount)
 	run.Set("max_list_size", maxN)
-	run.Set("rule", "a case is one (n, subset) proof, distinct by construction (every bitmask once per n), plus each of its single tamperings. Non-trivial = proofs that contain at least one assist hash and at least one proven leaf (so the tree is really traversed). For n <= every_subset_up_to_n every subset and, per proof, every hash position x {fresh hash, id and leaf hash of every list element, every other proof hash} and every flag position x {0,1,2,3,255}; for larger n the subsets are size <= 2, contiguous ranges and singleton complements and hash substitutes are the fresh hash, the neighbouring and first/last proof hashes and ids/leaf hashes of the list ends and of the elements at and next to the subset ends.")
+	run.Set("rule", "a case is one (n, subset) proof, distinct by construction (every bitmask once per n), plus each of its single tamperings. Non-trivial = proofs that contain at least one assist hash and at least one proven leaf (so the tree is really traversed). For n <= every_subset_up_to_n every subset and, per proof, every hash position x {fresh hash, id and leaf hash of every list element, every other proof hash} and every flag position x {0,1,2,3,255}; for larger n the subsets are size <= 2, contiguous ranges and singleton complements and hash substitutes are the fresh hash, the two neighbouring proof hashes and ids/leaf hashes of the list ends and of the elements at and next to the subset ends.")
 	run.Assume("golang.org/x/crypto/sha3 is trusted as SHA3-256 (anchored on the empty-string digest); hash collisions are not considered")
 	run.Assume("transaction ids are opaque distinct 32-byte values; the algorithm does not look inside them, so one list per size is enumerated")
 	run.Assume("related transactions are passed in list order (both callers in the node filter block.Transactions in order); trailing elements after a complete proof and re-ordered related sets are counted as observations, not tamperings of a proof hash or flag")
